@@ -139,6 +139,28 @@ def rule_write_after_success(ck: Check, repo: Repo) -> None:
                     r.violation(q, key, f"[{name}] {fs}", repo.loc(fn))
     r.floor(2, "failing paths", got=n_fail)
     r.floor(2, "successful paths", got=n_ok)
+    # every handler of add_header_to_file is a failure of THIS file: it ends with a non-zero result (`result = N`, N != 0, with
+    # the function returning result; or `return N`)
+    ret_names = {ast.unparse(x.value) for x in ast.walk(fn) if isinstance(x, ast.Return) and x.value is not None and isinstance(x.value, ast.Name)}
+    n_h = 0
+    for h in [x for x in ast.walk(fn) if isinstance(x, ast.ExceptHandler)]:
+        n_h += 1
+        nonzero = False
+        for st in h.body:
+            if isinstance(st, ast.Return) and isinstance(st.value, ast.Constant) and isinstance(st.value.value, int):
+                nonzero = st.value.value != 0
+                break
+            if isinstance(st, ast.Assign) and any(isinstance(t, ast.Name) and t.id in ret_names for t in st.targets) \
+                    and isinstance(st.value, ast.Constant) and isinstance(st.value.value, int):
+                nonzero = st.value.value != 0
+            if isinstance(st, ast.Raise):
+                nonzero = True
+                break
+        r.instance(f"handler:{ast.unparse(h.type) if h.type else 'bare'}", {"handles": ast.unparse(h.type) if h.type else None, "non_zero_result": nonzero}, q)
+        if not nonzero:
+            r.violation(q, f"the handler of {ast.unparse(h.type) if h.type else 'every exception'} does not end in a non-zero result",
+                        "this file was not annotated, yet it does not count as a failure: with no other failing file annotate exits 0", repo.loc(h))
+    r.floor(3, "handlers of add_header_to_file", got=n_h)
     # the annotate loop body: nothing is created before add_header_to_file
     cmds = repo.commands()
     if "annotate" not in cmds:
